@@ -202,6 +202,19 @@ CHECKS.update({
         design_ref='DESIGN.md §3.4, §4 C15', note=OAL_NOTE + '; ' + BP_NOTE),
 })
 
+
+CHECKS.update({
+    'C05': dict(
+        technique='generated name-resolved OAL bodies placed as actions (function, bridge, operation, derived attribute) of synthesised '
+                  'BridgePoint models; prebuild_action + gen_text_action on the real code; the tree of the generated text validated by '
+                  'TLC (OalTrace.tla) against the specification tree of the original (OalSyntax!Unparse / StripB), plus regeneration '
+                  'idempotence',
+        text='The oracle is the same tree vocabulary and unparser that C07 binds to the real parser, so "parses to the same syntax '
+             'tree" is decided by TLC on trees, not by comparing texts; every statement kind of the supported set, invocations with '
+             'by-name parameters in any order, as statements and as values.',
+        design_ref='DESIGN.md §3.4, §4 C05', note=OAL_NOTE + '; ' + BP_NOTE),
+})
+
 NOT_YET = {}
 
 
